@@ -216,11 +216,13 @@ func astFacts() string {
 // ---------- crash supervision ----------
 //
 // A panic in one of gocql's own goroutines (not in a call the harness makes) cannot be recovered: it kills
-// the process. `run` therefore works in a child process that journals which scenario is in flight; if the
-// child dies, the supervisor runs each in-flight scenario alone in a fresh process, and a scenario that
-// kills that process too is written out as the run's result with the answer `crash:<panic line>` — a
-// concrete, replayable failing input instead of a broken run. If none does (the crash needs the
-// concurrency), the child's exit status stands.
+// the process. `run` therefore works in a child process that journals every scenario of the concurrent
+// tiers (start, answer). If the child dies, the supervisor runs each scenario that was in flight alone in a
+// fresh process (three times); one that kills that process too is written out as the run's result with the
+// answer `crash:<panic line>` — a concrete, replayable failing input instead of a broken run. If none does
+// (the crash needs the concurrency of the full run), the scenarios that had been answered before the crash
+// are written out from the journal, followed by a marker line that the model cannot agree with: the check
+// then reports the first real disagreement among them, or else the broken run.
 
 var journal struct {
 	mu sync.Mutex
@@ -235,10 +237,10 @@ func journalStart(i int, op string) {
 	}
 }
 
-func journalDone(i int) {
+func journalDone(i int, answer string) {
 	if journal.f != nil {
 		journal.mu.Lock()
-		fmt.Fprintf(journal.f, "D %d\n", i)
+		fmt.Fprintf(journal.f, "D %d %s\n", i, answer)
 		journal.mu.Unlock()
 	}
 }
@@ -246,10 +248,10 @@ func journalDone(i int) {
 func supervise(tier, path string) {
 	os.MkdirAll(path, 0o755)
 	jpath := filepath.Join(path, "journal.txt")
+	racePrefix := filepath.Join(path, "race_report")
 	os.Remove(jpath)
 	cmd := osexec.Command(os.Args[0], os.Args[1:]...)
 	cmd.Env = append(os.Environ(), "C15_CHILD=1", "C15_JOURNAL="+jpath)
-	racePrefix := filepath.Join(path, "race_report")
 	if raceBuild {
 		// race reports go to files and are judged below (known finding KF-C15-2 is tolerated, nothing else)
 		old, _ := filepath.Glob(racePrefix + ".*")
@@ -277,53 +279,74 @@ func supervise(tier, path string) {
 	if ee, ok := err.(*osexec.ExitError); ok && ee.ExitCode() > 0 {
 		code = ee.ExitCode()
 	}
-	inflight := map[string]string{}
+	started := map[string]string{}
+	answered := map[string]string{}
 	var order []string
-	if f, e := os.Open(jpath); e == nil {
+	if _, e := os.Stat(jpath); e == nil {
 		for _, l := range vh.ReadLines(jpath) {
 			w := strings.SplitN(l, " ", 3)
-			switch {
-			case len(w) == 3 && w[0] == "S":
-				inflight[w[1]] = w[2]
+			if len(w) != 3 {
+				continue // a line cut short by the crash
+			}
+			switch w[0] {
+			case "S":
+				started[w[1]] = w[2]
 				order = append(order, w[1])
-			case len(w) == 2 && w[0] == "D":
-				delete(inflight, w[1])
+			case "D":
+				answered[w[1]] = w[2]
 			}
 		}
-		f.Close()
 	}
 	var ops, answers []string
+	ncand := 0
 	for _, id := range order {
-		op, ok := inflight[id]
-		if !ok || len(ops) >= 8 {
+		if _, done := answered[id]; done {
 			continue
 		}
-		delete(inflight, id)
+		ncand++
+		if len(ops) >= 8 {
+			continue
+		}
+		op := started[id]
 		tmp := filepath.Join(path, "crash_candidate.txt")
 		os.WriteFile(tmp, []byte(op+"\n"), 0o644)
-		c := osexec.Command(os.Args[0], "replay", "-", tmp)
-		var out bytes.Buffer
-		c.Stdout, c.Stderr = &out, &out
-		if e := c.Run(); e != nil {
-			msg := "process died"
-			for _, l := range strings.Split(out.String(), "\n") {
-				if strings.HasPrefix(l, "panic:") || strings.HasPrefix(l, "fatal error:") {
-					msg = l
-					break
+		for try := 0; try < 3; try++ {
+			c := osexec.Command(os.Args[0], "replay", "-", tmp)
+			var out bytes.Buffer
+			c.Stdout, c.Stderr = &out, &out
+			if e := c.Run(); e != nil {
+				msg := "process died"
+				for _, l := range strings.Split(out.String(), "\n") {
+					if strings.HasPrefix(l, "panic:") || strings.HasPrefix(l, "fatal error:") {
+						msg = l
+						break
+					}
 				}
+				ops = append(ops, op)
+				answers = append(answers, "crash:"+strings.ReplaceAll(msg, " ", "_"))
+				break
 			}
-			ops = append(ops, op)
-			answers = append(answers, "crash:"+strings.ReplaceAll(msg, " ", "_"))
 		}
 	}
-	if len(ops) == 0 {
+	if len(order) == 0 {
 		os.Stdout.Write(buf.Bytes())
 		os.Exit(code)
 	}
-	fmt.Printf("the run died (exit %d); %d scenario(s) kill the process when run alone\n", code, len(ops))
 	out := vh.NewOut(path)
-	for i, op := range ops {
-		out.Case(op, answers[i], "process-crash", true)
+	if len(ops) > 0 {
+		fmt.Printf("the run died (exit %d); %d scenario(s) kill the process when run alone\n", code, len(ops))
+		for i, op := range ops {
+			out.Case(op, answers[i], "process-crash", true)
+		}
+	} else {
+		fmt.Printf("the run died (exit %d); none of the %d scenarios in flight does it alone; writing out the %d scenarios answered before\n%s\n",
+			code, ncand, len(answered), tailString(buf.String(), 2500))
+		for _, id := range order {
+			if a, done := answered[id]; done {
+				out.Case(started[id], a, "answered-before-process-crash", true)
+			}
+		}
+		out.Case("crashed process-died-with-scenarios-in-flight", "the-harness-process-died;see-stats.json-process_crash_output", "process-crash", true)
 	}
 	out.Close(map[string]interface{}{"process_crash_output": tailString(buf.String(), 3000)})
 }
